@@ -117,11 +117,11 @@ class Grid:
         self.cell = lambda r, c, old=old, a=a, b=b, val=val: z3.If(z3.And(r == a, c == b), val, old(r, c))
 
 
-def _setup(c, tag, t0f, t1f, n, m, cost):
+def _setup(c, tag, t0f, t1f, n, m, cost, times_dtype="float"):
     """one symbolic run of the real function up to and including its return; returns dict(result, step facts...)"""
     it = c.interp
-    t0 = T(lambda t: t0f(t), "float", wrap(n), "first", tz.Shape(()))
-    t1 = T(lambda t: t1f(t), "float", wrap(m), "first", tz.Shape(()))
+    t0 = T(lambda t: t0f(t), times_dtype, wrap(n), "first", tz.Shape(()))
+    t1 = T(lambda t: t1f(t), times_dtype, wrap(m), "first", tz.Shape(()))
     t0._numel, t1._numel = wrap(n), wrap(m)
     st = {"tag": tag}
     G = z3.Function(f"G_{tag}", I, I, R)  # table content once the loops are done / of the already-filled region
@@ -130,6 +130,7 @@ def _setup(c, tag, t0f, t1f, n, m, cost):
 
     def zeros(*shape, **kw):
         if len(shape) == 2:
+            st["grid_dtype"] = kw.get("dtype")
             st["grid0"] = Grid(num(shape[0]), num(shape[1]), lambda r, cc: z3.RealVal(0))
             return st["grid0"]
         return orig_zeros(*shape, **kw)
@@ -304,6 +305,22 @@ def vp_sym(c):
     oa, ob = sa["out"], sb["out"]
     if oa is not None and ob is not None:
         c.ensure(f"{mode}:returns_the_last_cells", z3.And(tz.coerce(oa.f, "float") == ga(n.z, m.z), tz.coerce(ob.f, "float") == (gb(m.z, n.z) if mode == "symmetry" else gb(n.z, m.z))))
+
+
+
+@contract(P, "victor_purpura_pair_dist[integer spike times]", (M, FN), min_obligations=2)
+def vp_integer_times(c):
+    """spike times given as INTEGERS (step indices, e.g. from torch.nonzero of a raster) with a fractional cost: the table
+    accumulates costs, so it is created with the COST's floating-point type - a table typed like the spike times would
+    truncate every shift cost toward zero (distinct trains at distance 0)"""
+    n, m = c.int("n"), c.int("m")
+    c.require(n >= 0, m >= 0)
+    t0f, t1f = z3.Function("t0i", I, I), z3.Function("t1i", I, I)
+    cost = c.pw("cost")
+    c.require(cost.f >= 0)
+    st = _setup(c, "i", t0f, t1f, n.z, m.z, cost, times_dtype="int")
+    c.ensure("table_created_with_the_floating_point_type_of_the_cost", tz.tag_of(st.get("grid_dtype")) == "float" if st.get("grid_dtype") is not None else False)
+    c.canary("canary_table_typed_like_the_spike_times", st.get("grid_dtype") is not None and tz.tag_of(st.get("grid_dtype")) == "int")
 
 
 @contract(P, "victor_purpura_pair_dist[scalar cost limits]", (M, FN), min_obligations=2)
